@@ -185,3 +185,89 @@ def offset_witness_defn():
 def offset_witness_points():
     return [{"dt": 0.1, "x": 1.0e8 + 0.5, "y": -3.0e7 + 0.5}, {"dt": 0.1, "x": 1.0e8 - 0.75, "y": -3.0e7 + 2.25},
             {"dt": 0.05, "x": 1.0e8 + 3.0, "y": -3.0e7 - 0.125}]
+
+
+# ---- known finding: ui.Model(proactive_simplify=True) follows a sympy.simplify result that is not value preserving
+
+KEY_PS = "proactive-simplify:wrong-value"
+WHAT_PS = ("ui.Model(proactive_simplify=True) runs sympy.simplify on the user's update expressions; sympy 1.14 "
+           "rewrites b + dt*exp(-cos(x/(2 + cos(t)**2))**2) as b + dt*exp(-1 + sin(x/(2 - 1/tan(t)**2))**(-2)), "
+           "which is a different function, and the compiled model / filter follow the rewritten expression "
+           "(without the option they are correct); witness: b' = b + dt*exp(-cos(x/(2+cos(t)^2))^2) at "
+           "b=3, x=1.2, t=0.4, dt=1")
+
+
+def ps_witness_defn():
+    S = E.S
+    u = ["div", S("x"), ["add", E.C(2), ["pow", ["cos", S("t")], 2]]]
+    return {
+        "dt": "dt", "state": ["b", "x"], "control": ["t"], "calibration": [],
+        "model": {"b": ["add", S("b"), ["mul", S("dt"), ["gauss", ["cos", u]]]], "x": S("x")},
+        "model_as_text": [], "containers": {"state": "set", "control": "set", "calibration": "set"},
+        "calibration_map": {}, "process_noise": {"t": 0.25},
+        "sensors": {}, "sensor_noises": {}, "reading_keys": {},
+        "n_shared": 0, "family": "proactive_simplify_witness", "proactive_simplify": True,
+    }
+
+
+def ps_witness_point():
+    return {"dt": 1.0, "b": 3.0, "x": 1.2, "t": 0.4}
+
+
+def simplify_changed_value(built, rel=1e-6):
+    """Mechanism test for KEY_PS: is sympy.simplify itself, applied to an update expression as the user gave it,
+    not value preserving?  (30-digit evalf at three fixed generic points; two sympy expressions are compared, no
+    FormaK code is involved - a FormaK change that mishandles a correct simplify result is not this mechanism.)"""
+    import sympy
+
+    defn = built.defn
+    if not defn.get("proactive_simplify"):
+        return False
+    names = [defn["dt"]] + list(defn["state"]) + list(defn["control"]) + list(defn["calibration"])
+    for name, ast in defn["model"].items():
+        given = sympy.sympify(E.to_sympy(ast, built.symtab))
+        rewritten = sympy.simplify(given)
+        for k in range(3):
+            vals = {built.sym(n): sympy.Float(0.37 + 0.23 * ((7 * j + 3 * k) % 11) - 0.9 * (j % 2), 30)
+                    for j, n in enumerate(names)}
+            try:
+                a = complex(given.subs(vals).evalf(30))
+                b = complex(rewritten.subs(vals).evalf(30))
+            except (TypeError, ValueError, ZeroDivisionError):
+                continue
+            if not (abs(a) < 1e200 and abs(b) < 1e200):
+                continue
+            if abs(a - b) > rel * max(1.0, abs(a)):
+                return True
+    return False
+
+
+def reclassify_ps(out):
+    """Violations of a unit whose definition uses proactive_simplify are re-labelled with KEY_PS when (and only
+    when) the mechanism test says that sympy.simplify changed the user's function.  out: Result.out() dict."""
+    from . import build
+
+    vs = out.get("violations") or []
+    cache = {}
+    new = []
+    for v in vs:
+        defn = (v.get("witness") or {}).get("defn")
+        if not (isinstance(defn, dict) and defn.get("proactive_simplify")) or v.get("key") == KEY_PS:
+            new.append(v)
+            continue
+        fp = gen.fingerprint(defn)
+        if fp not in cache:
+            try:
+                cache[fp] = simplify_changed_value(build.Built(dict(defn, proactive_simplify_probe=True), attach=False))
+            except Exception:  # noqa: BLE001
+                cache[fp] = False
+        if cache[fp]:
+            if not any(w.get("key") == KEY_PS for w in new):
+                new.append({"key": KEY_PS, "what": "ui.Model(proactive_simplify=True) kept an expression that is not the user's function (first symptom: " + str(v.get("what"))[:200] + ")",
+                            "witness": {"defn": defn}})
+            out.setdefault("counters", {})["violations_reclassified_as_known_proactive_simplify"] = \
+                out.get("counters", {}).get("violations_reclassified_as_known_proactive_simplify", 0) + 1
+        else:
+            new.append(v)
+    out["violations"] = new
+    return out
